@@ -43,8 +43,7 @@ CInit(bounded) ==
       dsent     |-> <<>>,          \* datagram id -> size, accepted by the sender
       drecv     |-> {},            \* datagram ids received
       panics    |-> 0,
-      ok        |-> TRUE,
-      why       |-> "" ]
+      ok |-> TRUE, why |-> "", at |-> 0 ]
 
 Fail(st, why) == IF st.ok THEN [st EXCEPT !.ok = FALSE, !.why = why] ELSE st
 
